@@ -16,6 +16,22 @@ use std::collections::BTreeMap;
 use std::io::{Seek, SeekFrom, Write};
 use std::process::ExitCode;
 
+thread_local! {
+    static PROGRESS: std::cell::RefCell<Option<(std::fs::File, u64, u64)>> = const { std::cell::RefCell::new(None) };
+}
+
+/// Called at the start of every execution: the driver's watchdog only fires when a worker shows no
+/// sign of life at all for the per-run time limit (a run may consist of hundreds of executions).
+pub fn heartbeat() {
+    PROGRESS.with(|p| {
+        if let Some((f, run, sub)) = p.borrow_mut().as_mut() {
+            *sub += 1;
+            let _ = f.seek(SeekFrom::Start(0));
+            let _ = write!(f, "{:020} {:010}\n", run, sub);
+        }
+    });
+}
+
 fn arg<'a>(args: &'a [String], name: &str) -> Option<&'a str> {
     args.iter().position(|a| a == name).and_then(|i| args.get(i + 1)).map(|s| s.as_str())
 }
@@ -84,7 +100,8 @@ fn work(args: &[String]) -> ExitCode {
     let deadline_s: f64 = arg(args, "--deadline-s").and_then(|s| s.parse().ok()).unwrap_or(1e12);
     let start = std::time::Instant::now();
 
-    let mut progress = std::fs::File::create(format!("{out}.progress")).expect("cannot create progress file");
+    let progress = std::fs::File::create(format!("{out}.progress")).expect("cannot create progress file");
+    PROGRESS.with(|p| *p.borrow_mut() = Some((progress, 0, 0)));
     let mut fps: Vec<u8> = Vec::new();
     let mut schs: Vec<u8> = Vec::new();
     let mut agg = Agg::default();
@@ -104,8 +121,13 @@ fn work(args: &[String]) -> ExitCode {
             truncated_at = Some(run);
             break;
         }
-        let _ = progress.seek(SeekFrom::Start(0));
-        let _ = write!(progress, "{run:020}\n");
+        PROGRESS.with(|p| {
+            if let Some((_, r, sub)) = p.borrow_mut().as_mut() {
+                *r = run;
+                *sub = 0;
+            }
+        });
+        heartbeat();
         let rep = props::run_property(&ctx, run);
         runs += 1;
         evaluations += rep.evaluations;
@@ -158,8 +180,12 @@ fn work(args: &[String]) -> ExitCode {
         }
         run += stride;
     }
-    let _ = progress.seek(SeekFrom::Start(0));
-    let _ = write!(progress, "{:020}\n", u64::MAX);
+    PROGRESS.with(|p| {
+        if let Some((f, _, _)) = p.borrow_mut().as_mut() {
+            let _ = f.seek(SeekFrom::Start(0));
+            let _ = write!(f, "{:020} {:010}\n", u64::MAX, 0);
+        }
+    });
     std::fs::write(format!("{out}.fp"), &fps).expect("cannot write fingerprints");
     std::fs::write(format!("{out}.sch"), &schs).expect("cannot write schedule hashes");
     let summary = json!({
